@@ -261,6 +261,57 @@ pub fn vx_plugin_state_name<'a>(ps: &'a VxPluginStateGuard) -> (r: Option<&'a st
 #[verifier::external_body]
 pub fn vx_call_apply_command(f: VxApplyFn, d: &VxInternalData, cmd: &str, params: Option<&VxJsonMap>, ctx: Option<&VxJsonMap>) -> (r: VxJsonValue) { unimplemented!() }
 
+// ---------- the `fs` handler's archive branch (fs_cmd_archive): crash freedom ----------
+// str routines (R11). `full_path.splitn(2, "!/")`: one piece (the whole text) or two; `ends_with('!')`: the last byte is `!`;
+// `&s[..s.len() - 1]`: needs a non-empty text that ends on a character boundary there
+pub uninterp spec fn spec_ends_with_bang(s: &str) -> bool;
+#[verifier::external_body]
+pub fn vx_splitn2_bang_slash<'a>(s: &'a str) -> (r: Vec<&'a str>) ensures 1 <= r@.len() <= 2, r@.len() == 1 ==> r@[0] == s { unimplemented!() }
+#[verifier::external_body]
+pub fn vx_ends_with_bang(s: &str) -> (r: bool) ensures r == spec_ends_with_bang(s) { unimplemented!() }
+#[verifier::external_body]
+pub fn vx_str_len(s: &str) -> (r: usize) ensures spec_ends_with_bang(s) ==> r >= 1 { unimplemented!() }
+#[verifier::external_body]
+pub fn vx_str_prefix<'a>(s: &'a str, n: usize) -> (r: &'a str) requires spec_ends_with_bang(s), n + 1 == vx_spec_len(s) { unimplemented!() }
+pub uninterp spec fn vx_spec_len(s: &str) -> nat;
+#[verifier::external_body]
+pub fn vx_str_len2(s: &str) -> (r: usize) ensures r == vx_spec_len(s), spec_ends_with_bang(s) ==> r >= 1 { unimplemented!() }
+//@ extract src/bin/adlt/remote.rs region `let uri = full_path` .. `let (archive_path, path_within) = match uri.len() {` in fn fs_cmd_archive
+//@   sig pub fn fs_archive_split<'a>(full_path: &'a str) -> (r: Result<(&'a str, &'a str), std::io::Error>)
+//@   tail `Ok((archive_path, path_within))`
+//@   sub R11 `full_path.splitn(2, "!/").collect::<Vec<&str>>()` => `vx_splitn2_bang_slash(full_path)`
+//@   sub R11 `full_path.ends_with('!')` => `vx_ends_with_bang(full_path)` ?
+//@   sub R11 `&uri[0][..uri[0].len() - 1]` => `vx_str_prefix(uri[0], vx_str_len2(uri[0]) - 1)` ?
+//@   sub R3 `.into()` => `` *
+//@   spec
+//@|    ensures true, // O:fs.archive.split_no_panic (indexing the pieces and cutting the trailing `!` cannot panic)
+//@ end
+#[verifier::external_body]
+pub struct VxSource { _p: u8 }
+#[verifier::external_body]
+pub struct VxPathBuf { _p: u8 }
+// listing an archive can fail (not an archive, truncated, unreadable): Result
+#[verifier::external_body]
+pub fn vx_list_archive(source: &mut VxSource, p: &VxPathBuf) -> (r: Result<Vec<String>, std::io::Error>) { unimplemented!() }
+#[verifier::external_body]
+pub fn vx_is_single_data(files: &Vec<String>) -> (r: bool) { unimplemented!() }
+#[verifier::external_body]
+pub fn archive_contents_metadata(files: &Vec<String>, path: &str) -> (r: Result<(u8, usize), std::io::Error>) { unimplemented!() }
+#[verifier::external_body]
+pub fn vx_opaque_json() -> (r: VxJsonValue) { unimplemented!() }
+//@ extract src/bin/adlt/remote.rs region `return match cmd {` .. `return match cmd {` in fn fs_cmd_archive
+//@   sig pub fn fs_archive_cmd(cmd: &str, mut source: VxSource, archive_path: VxPathBuf, path_within: &str) -> (r: Result<VxJsonValue, std::io::Error>)
+//@   tail `#[allow(unreachable_code)] { Ok(vx_opaque_json()) }`
+//@   sub R11 `list_archive_contents_cached(&mut source, &archive_path.to_string_lossy())` => `vx_list_archive(&mut source, &archive_path)` *
+//@   sub R11 `files.len() == 1 && files[0] == "data"` => `vx_is_single_data(&files)` *
+//@   cut R11 `let archive_name = archive_path` ?
+//@   cut R11 `let entries: Vec<_> = archive_contents_read_dir` ?
+//@   sub R6 `serde_json::json!(__)` => `vx_opaque_json()` *
+//@   sub R3 `.into()` => `` *
+//@   spec
+//@|    ensures true, // O:fs.archive.no_panic (whatever the file with the archive name contains, the command is answered, not crashed)
+//@ end
+
 // ---------- the property, per command ----------
 // k = class of the one reply (1 ok, 2 err, 3 unknown command); f0/f1 = the file context before/after
 pub open spec fn one_reply(s0: Seq<u8>, s1: Seq<u8>) -> bool {
